@@ -567,8 +567,23 @@ def decide(prop, tier, seed, jobs, meta, extra_results=None):
     }
     evidence['coverage'].update(meta.get('coverage_extra', {}))
     if extra_results:
-        evidence['coverage']['bounded_checks_not_counted_as_proved'] = [
-            {k: v for k, v in er.items() if k not in ('output_tail',)} for er in extra_results]
+        # Kani harnesses come in two kinds (kani/harnesses.json): `counts_as: complete ..` = loop-free over the full domain of their
+        # symbolic inputs (a proof of the stated contract for the element types named in the harness, discharged by CBMC), and
+        # everything else = bounded stand-ins, which are never counted as proved.
+        def _strip(er):
+            return {k: v for k, v in er.items() if k not in ('output_tail',)}
+        complete = [er for er in extra_results if str(er.get('counts_as', '')).startswith('complete')]
+        bounded = [er for er in extra_results if not str(er.get('counts_as', '')).startswith('complete')]
+        evidence['coverage']['bounded_checks_not_counted_as_proved'] = [_strip(er) for er in bounded]
+        evidence['coverage']['complete_kani_harnesses'] = [_strip(er) for er in complete]
+        n_c = len(complete)
+        n_c_ok = len([er for er in complete if er.get('status') == 'SUCCESSFUL'])
+        evidence['coverage']['obligations_by_backend'] = {
+            'verus_z3': {'obligations': n_obl, 'discharged': n_dis},
+            'kani_cbmc_loop_free_full_domain': {'obligations': n_c, 'discharged': n_c_ok,
+                                                'solver_time_s': round(sum((er.get('time_s') or 0) for er in complete), 1)}}
+        evidence['coverage']['obligations'] = n_obl + n_c
+        evidence['coverage']['discharged'] = n_dis + n_c_ok
     with open(os.path.join(EVID, '%s.json' % prop), 'w') as fh:
         json.dump(evidence, fh, indent=1)
 
